@@ -1068,6 +1068,34 @@ func c16Iter(si, n, brk, mode int) core.Result {
 			if pan != "" || err != nil {
 				return core.Violation("contains", fmt.Sprintf("%q with v = %s: %v %s", src, desc, err, pan))
 			}
+			// every built-in filter applied to the container (twice, and to a copy merged from it) leaves it as it was:
+			// the traversal afterwards visits what it visited before
+			if mode != 3 { // (in mode 3 every traversal grows the map)
+				steps, _, _, _ := tryIterate(v, -1, -1) // (the traversal as it is now: a map that grew during the first one has more)
+				for _, f := range c02FilterNames() {
+					tryExec(tenv, "{% set t = v|"+f+" %}{% set t2 = v|"+f+"|"+f+" %}{% set a = v|merge(['x']) %}{% set b = v|merge(['y']) %}{{ a|join }}", map[string]stick.Value{"v": v})
+				}
+				// two values derived from one list stay apart (the list itself given spare capacity, as slices built by
+				// append have)
+				if sl, isList := v.([]stick.Value); isList {
+					roomy := append(make([]stick.Value, 0, len(sl)+8), sl...)
+					out, err, pan := tryExec(tenv, "{% set a = v|merge(['x']) %}{% set b = v|merge(['y']) %}{% set c = a|merge(['z']) %}{{ a|last }}{{ b|last }}{{ c|last }}{{ a|length }}", map[string]stick.Value{"v": roomy})
+					if want := "xyz" + itoa(len(sl)+1); pan != "" || err != nil || out != want {
+						return core.Violation("visit", fmt.Sprintf("two lists merged from %s (with spare capacity): %q (%v %s), want %q", desc, out, err, pan, want))
+					}
+				}
+				steps2, _, err2, pan2 := tryIterate(v, -1, -1)
+				if pan2 != "" || err2 != nil || len(steps2) != len(steps) {
+					return core.Violation("visit", fmt.Sprintf("after the built-in filters were applied to %s, Iterate visits %d elements (%v %s); before, %d", desc, len(steps2), err2, pan2, len(steps)))
+				}
+				if ordered {
+					for i := range steps2 {
+						if !reflect.DeepEqual(steps2[i].v, steps[i].v) {
+							return core.Violation("visit", fmt.Sprintf("after the built-in filters were applied to %s, element %d is %#v; it was %#v", desc, i, steps2[i].v, steps[i].v))
+						}
+					}
+				}
+			}
 			ln, _ := stick.Len(v) // (checked against the traversal above; a map that grew during it has more than n)
 			if wantM := itoa(ln) + ";" + strings.Repeat("Y", len(vals)) + ";" + itoa(ln); out != wantM && v != nil {
 				return core.Violation("contains", fmt.Sprintf("%q with v = %s renders %q, want %q (every element survives a merge with nothing)", src, desc, out, wantM))
@@ -1084,6 +1112,32 @@ func c16Iter(si, n, brk, mode int) core.Result {
 
 // c16Tpl drives the same (container, key) pairs through templates: {{ c[k] }} must not panic and,
 // when the direct lookup yields an element, must print it.
+type c16Calc struct{ Base int }
+
+func (c c16Calc) Add(a, b int) int             { return a + b }
+func (c c16Calc) Double(a int) int             { return 2 * a }
+func (c c16Calc) Join3(a, b, c2 string) string { return a + "-" + b + "-" + c2 }
+func (c c16Calc) Str(a int) string             { return "s" + itoa(a) }
+
+// c16Nested: method calls whose arguments are method calls, in a loop and twice in a row: every call receives its
+// own arguments (an argument buffer shared between an outer call and the calls in its arguments would not).
+func c16Nested(form int) core.Result {
+	src := []string{
+		"{% for i in [1, 2, 3] %}{{ calc.Add(100, calc.Double(i)) }},{% endfor %}",
+		"{{ calc.Add(calc.Double(5), calc.Double(2)) }}|{{ calc.Add(calc.Double(5), calc.Double(2)) }}",
+		"{{ calc.Join3(calc.Str(1), calc.Join3('a', calc.Str(2), 'b'), calc.Str(3)) }}",
+		"{% for i in [1, 2] %}{{ calc.Add(calc.Add(i, 10), calc.Add(calc.Double(i), calc.Add(1, 1))) }};{% endfor %}",
+		"{% macro m(a, b) %}<{{ a }}|{{ b }}>{% endmacro %}{% for i in [1, 2] %}{{ _self.m('k', calc.Double(i)) }}{{ _self.m(calc.Add(i, 1), calc.Str(i)) }}{% endfor %}",
+		"{{ calc.Add(1, 2) }}{{ calc.Add(3, calc.Add(4, 5)) }}{{ calc.Double(calc.Double(calc.Double(1))) }}",
+	}[form]
+	want := []string{"102,104,106,", "14|14", "s1-a-s2-b-s3", "15;18;", "<k|2><2|s1><k|4><3|s2>", "3128"}[form]
+	out, err, pan := tryExec(stick.New(nil), src, map[string]stick.Value{"calc": c16Calc{}})
+	if pan != "" || err != nil || out != want {
+		return core.Violation("method-args", fmt.Sprintf("%q renders %q (%v %s), want %q", src, out, err, pan, want))
+	}
+	return core.Okay(true, out)
+}
+
 func c16Tpl(ci, ki int) core.Result {
 	conts, keys := c16Containers(), c16Keys()
 	if ci >= len(conts) || ki >= len(keys) {
@@ -1226,7 +1280,10 @@ func c16Levels(tier string) []core.Level {
 				}
 			}
 		}},
-		{Name: "templates: {{ c[k] }} for every container x key", Gen: func(emit func(core.Case)) {
+		{Name: "templates: {{ c[k] }} for every container x key; 6 templates whose method calls take method calls as arguments (in loops, repeated, as macro arguments)", Gen: func(emit func(core.Case)) {
+			for f := 0; f < 6; f++ {
+				emit(core.Case{Fam: "nested", N: []int{f}})
+			}
 			nc, nk := len(c16Containers()), len(c16Keys())
 			for c := 0; c < nc; c++ {
 				for k := 0; k < nk; k++ {
@@ -1243,6 +1300,8 @@ func c16Run(c core.Case) core.Result {
 		return c16Attr(c.N[0], c.N[1], c.N[2])
 	case "iter":
 		return c16Iter(c.N[0], c.N[1], c.N[2], c.N[3])
+	case "nested":
+		return c16Nested(c.N[0])
 	case "tpl":
 		return c16Tpl(c.N[0], c.N[1])
 	case "len":
